@@ -170,6 +170,7 @@ void h_equality(void)
   for (int i = 0; i < 3; i++) { XT[i] = NEW(transfer_t); li[i] = nondet_int(); ci[i] = nondet_int(); __CPROVER_assume(0 <= li[i] && li[i] < 3 && 0 <= ci[i] && ci[i] < 3); XL[i] = &lk[li[i]]; XC[i] = &cc[ci[i]]; }
   #define XSAME(i, j) (SAME(li[i], li[j]) && SAME(ci[i], ci[j]))
   EQUIV(@{xfer_eq}, XT, XSAME(0,1), XSAME(1,2), XSAME(0,2), "transfer");
+  __CPROVER_assert(@{xfer_ne}(XT[0], XT[1]) == !@{xfer_eq}(XT[0], XT[1]) && @{xfer_ne}(XT[1], XT[2]) == !XSAME(1,2), "C15: transfer != is the negation of ==");
   /* basic specifiers / qualifiers wrap a logogram object: equal when it is the same logogram, and equal values are spelled the same */
   struct S_ZTSN3ipr15Basic_specifierE bs[3]; struct S_ZTSN3ipr15Basic_qualifierE bq[3];
   for (int i = 0; i < 3; i++) { bs[i].f_spec = LG[i]; bq[i].f_qual = LG[i]; }
@@ -177,5 +178,6 @@ void h_equality(void)
   __CPROVER_assert((LG[0] == LG[1]) == @{bspec_eq}(bs[0], bs[1]) && (!@{bspec_eq}(bs[0], bs[1]) || SAME(0,1)), "C15: basic specifiers are equal exactly when they are the same name");
   __CPROVER_assert(@{bqual_eq}(bq[0], bq[0]) && (LG[0] == LG[1]) == @{bqual_eq}(bq[0], bq[1]) && (!@{bqual_eq}(bq[0], bq[1]) || SAME(0,1)), "C15: basic qualifiers are equal exactly when they are the same name");
   __CPROVER_assert(@{string_eq}(s0, s0) && !@{string_eq}(s0, s1), "C15: Strings are equal exactly when they are the same node");
+  __CPROVER_assert(@{bspec_ne}(bs[0], bs[1]) == !@{bspec_eq}(bs[0], bs[1]) && @{bqual_ne}(bq[0], bq[1]) == !@{bqual_eq}(bq[0], bq[1]) && !@{string_ne}(s0, s0) && @{string_ne}(s0, s1), "C15: != is the negation of == (basic specifiers, basic qualifiers, strings)");
   IPR_CANARY_POINT();
 }
